@@ -36,7 +36,7 @@ H("c08_ev_equal", "c08_scalar::c08_ev_equal", ["C08", "C01"], ["Evaluator::evalu
   "all pairs of operand answers: nil/false/true/any f64 (all bit patterns)/string(kind only)/table/function, each exact or Unknown; both evaluator configurations",
   mode="full", timeout_s=300, replay="ev_equal",
   assumptions=["string operands: only the kind of the result is checked (Kani 0.68 mis-models LuaValue::String payload bytes)"])
-POWI = "f64::powi -> exact model for base 2 (repeated squaring is exact on powers of two), unconstrained otherwise"
+POWI = "f64::powi / f64::exp2 -> exact models for powers of two (base 2, integral exponent), unconstrained otherwise"
 H("c08_ev_hex", "c08_scalar::c08_ev_hex", ["C08", "C13", "C06"], ["HexNumber::compute_value", "HexNumber::with_exponent"],
   "any u64 mantissa, any u32 exponent or none", mode="lean", timeout_s=300, replay="ev_hex", stubs=[POWI])
 H("c12_hex_no_panic", "c08_scalar::c12_hex_no_panic", ["C12"], ["HexNumber::compute_value", "HexNumber::with_exponent"],
@@ -168,14 +168,14 @@ H("c08_multiple_values_others", "c08_steps::c08_multiple_values_others", ["C08",
   assumptions=["function, number, string, interpolated-string, type-cast and type-instantiation expressions are outside the bound"])
 
 # ---------------------------------------------------------------------------------------- C01 compute step
-for g in range(16):
+for g in range(32):
     H("c01_compute_and_or_g%d" % g, "c01_compute::c01_compute_and_or_g%d" % g, ["C01"], ["compute_expression::Computer::replace_with (and/or arms)", "LuaValue::is_truthy"],
-      "one `L and R` / `L or R` node, control scenarios of group %d of harness/src/c01_scenarios_g*.in (48 in all: operator x what evaluate(L) answers {nil, true, table, Unknown} x what has_side_effects answers for L and for the node x what evaluate(node) answers {nil, true, Unknown}); "
+      "one `L and R` / `L or R` node, control scenarios of group %d of harness/src/c01_scenarios_g*.in (96 in all: operator x whether R is a real call expression x what evaluate(L) answers {nil, true, table, Unknown} x what has_side_effects answers for L and for the node x what evaluate(node) answers {nil, true, Unknown}); "
       "operand values (any f64 for numbers), the right operand (leaf / call / `...`, value, effects) and the operands' real behaviour symbolic" % g,
-      tier="quick" if g <= 1 else "thorough", mode="lean", timeout_s=1200, mem_gb=16, replay="compute_and_or_g%d" % g,
+      tier="quick" if g <= 1 else "thorough", mode="lean", timeout_s=1200, mem_gb=34, replay="compute_and_or_g%d" % g,
       stubs=[EVAL_STUB, SE_STUB, "LuaValue::to_expression -> records the folded value and returns a marker (literal construction runs log10/powf)",
              "<Expression as Clone>::clone -> copy of the harness's identifier leaves", "Computer::process_expression (the recursive re-processing of the replacement) -> no-op"],
-      assumptions=["under Kani both operands are identifier leaves whatever their shape: replace_with looks at operands only through evaluate / has_side_effects / clone",
+      assumptions=["under Kani the left operand is an identifier leaf whatever its shape and the right operand is an identifier leaf or a real call `b()` (scenario constant): code that inspects the variant of the RIGHT operand (e.g. to parenthesise a call) sees a real call; `...` as right operand and calls as left operand remain model attributes",
                    "the answers replace_with branches on are constants of each scenario (keeps CBMC out of the drop glue of Option<Expression> temporaries); evaluate(L) answering false/number/string/table/function is represented by `true`/`nil` of the same truthiness",
                    "has_side_effects(L op R) is true whenever has_side_effects(L) is; evaluate(L op R) is definite only if the operands that decide it are known",
                    "native replay runs the real Computer::replace_with (real evaluator, real clone) on realised operands"])
